@@ -23,9 +23,22 @@ claim('C03', 'proof', 'Coq theorem (labelling invariant + substitution lemma + f
       'subformulas through fresh atoms on a labelled clone; CTL first, LTL tableau, E g ~> not A not g) returns exactly {s | K,s |= f}. C03_fresh_collision_refuted records why exotic atom names are excluded. '
       'Tie: CTLS.modelcheck vs the extracted model, exhaustive small scope (sampled) + random, tagged by the back end that answered.',
       'Known findings KF-print-a / KF-C03-a (atoms spelled like printed subformulas / fresh names) are outside the theorem and reported as KNOWN-FINDING.')
+claim('C08', 'proof', 'Coq theorems (nested induction on operator trees; finite case analysis over language x operator x class) + exhaustive differential test of construct / cast_to / guards',
+      'C08_construct/_built_objects_are_members/_members_can_be_built/_cast/_guard_*: in the model of the class lattice (isinstance tables transcribed from the class statements, wrap_subformulas after fixes F8 and F10) '
+      'an object can be built or cast into a logic exactly when its tree is a formula of that logic, otherwise TypeError; the modelcheck guards reject everything but state formulas. '
+      'Tie: all 5986 operator trees of depth <= 2 (+ternary, sampled depth 3) x 4 language modules x {construct, mixed-language apply, cast_to x4, 3 modelcheck guards on objects and text}.')
+claim('C11', 'proof', 'Coq theorems (printer injectivity by unique decomposition of printed strings) + differential test of ==, hash, set/dict behaviour, str and clone',
+      'C11_eq_iff_tree/_refl/_sym/_trans/_hash/_hash_inj/_bool/_print_injective (+ C11_reserved_refuted): printed-form equality is tree equality on formulas of one logic over non-reserved identifier atoms. '
+      'Tie: == both ways, !=, hash, len({f,g}), dict lookup, str character by character vs the model printer, clone tree/sharing/mutation-through-clone on pairs and triples from the depth<=2 enumeration.',
+      'Node sharing after clone() is a heap fact monitored at run time (id walk + mutation through the clone), not modelled.')
+claim('C14', 'proof', 'Coq theorems (constructor / clone / substructure specifications over the proved graph-construction lemmas; axiom-free) + differential test incl. aliasing monitors',
+      'C14_ctor/_shape/_nonstate/_state/_clone/_substructure/_constructed_wf: Kripke(S,S0,R,L) succeeds exactly when every state has a successor (else RuntimeError); states, transitions, initial states, label sets as documented; '
+      'clone and get_substructure (after fix F2) preserve labels and give exactly the induced transitions, RuntimeError exactly when the induced relation is not total. '
+      'Tie: every argument combination over <= 2 states, all 3-state (S,R) with sampled S0/L, random <= 5 states, every subset V; container-type and state-type variation.',
+      'Label-set aliasing (id disjointness, mutation through every handed-out object) is monitored at run time, not modelled.')
 for p, why in [
     ('C04', 'check being assembled'),
-    ('C06', 'check being assembled'), ('C07', 'check being assembled'), ('C08', 'check being assembled'), ('C09', 'check being assembled'),
-    ('C10', 'check being assembled'), ('C11', 'check being assembled'), ('C14', 'check being assembled'), ('C15', 'check being assembled'),
+    ('C06', 'check being assembled'), ('C07', 'check being assembled'), ('C09', 'check being assembled'),
+    ('C10', 'check being assembled'), ('C15', 'check being assembled'),
     ('C16', 'check being assembled'), ('C17', 'check being assembled'), ('C18', 'check being assembled'), ('C19', 'check being assembled')]:
     na(p, 'not claimed yet: ' + why + '; see DESIGN.md section 6 for the planned theorem and correspondence')
